@@ -1,6 +1,7 @@
 -- written by bin/mkroundpins from /repo at commit 472862f
 namespace Mps.SrcPins.SrcFrostKeygen
 def f_config : List String := [
+  "decl:Config e30cbfbf8a095ffdbebe818a",
   "EmptyConfig 6db6bc3ebe4f09a405447a2a",
   "Config.Validate 010add0b1c2194179ff616e2",
   "Config.UnmarshalCBOR bd614e5b91845a302897040c",
@@ -8,6 +9,7 @@ def f_config : List String := [
   "Config.Curve c13eeed57807701212945039",
   "Config.Derive 51401ef5680ebf4a0b04dfd3",
   "Config.DeriveChild e146604ec6f9edf6761db05b",
+  "decl:TaprootConfig 8880c82b316382647cac3150",
   "TaprootConfig.Validate abb636f11cee5841bba425f8",
   "TaprootConfig.UnmarshalCBOR 2f53c76f7b6fc26471a93fbc",
   "TaprootConfig.Clone cb75ad2590334cc24ae4d48b",
@@ -15,9 +17,12 @@ def f_config : List String := [
   "TaprootConfig.DeriveChild c938fb502881ca0adbcc003e"
 ]
 def f_keygen : List String := [
+  "decl:protocolID,protocolIDTaproot,protocolRounds 9742a06eb6f62a9bd7a442ec",
+  "decl:_,_,_ bb95a3d8c6716ca31814115d",
   "StartKeygenCommon b3fc0a33b07121a0d4727fca"
 ]
 def f_round1 : List String := [
+  "decl:round1 ead0255caee6332069dbe575",
   "round1.VerifyMessage 802d63134a23acda92d7513c",
   "round1.StoreMessage 802d63134a23acda92d7513c",
   "round1.Finalize 01f7471d045383692e9fa0ac",
@@ -25,6 +30,8 @@ def f_round1 : List String := [
   "round1.Number b4fc1b1a37769dc302afcc74"
 ]
 def f_round2 : List String := [
+  "decl:round2 3d6087e15c13ba30447f2cb0",
+  "decl:broadcast2 58e4dd5d2b6d2aed716eaa5b",
   "round2.StoreBroadcastMessage 009b0f57a124ba9f4047b613",
   "round2.VerifyMessage 802d63134a23acda92d7513c",
   "round2.StoreMessage 802d63134a23acda92d7513c",
@@ -35,6 +42,9 @@ def f_round2 : List String := [
   "round2.Number afbf3b2d17fee1f6ce5e2421"
 ]
 def f_round3 : List String := [
+  "decl:round3 9a90430fdccb6c876ddece46",
+  "decl:message3 e716be6c52158dde9f968ff4",
+  "decl:broadcast3 c826e5283931f382fb91419f",
   "round3.StoreBroadcastMessage ef3d302703473d59bf00a255",
   "round3.VerifyMessage 4f12ac94ffeaf0577d2a33ae",
   "round3.StoreMessage 482d3ccae3ffa2c685605d5f",
